@@ -494,7 +494,8 @@ func (sc *c20hScenario) run(t *testing.T, file string, res *verifResult) {
 	}
 	coq, ids := c20hDump(saved)
 	cur = append(cur, "(LSave, LFile "+coq+")")
-	if !c20hSameIDs(ids, sent) {
+	fileOK := c20hSameIDs(ids, sent)
+	if !fileOK {
 		sc.hits = append(sc.hits, verifHit{Key: "C20:history-changed-by-reader:saved:" + sc.group, Oracle: c20hOracle, Kind: "history",
 			What: fmt.Sprintf("%s: recorded %v (newest first), then %d reader requests (%s ...) before the save timer fired: the file holds %v", sc.name, sent, len(sc.variants), strings.Join(reqs[:c20hMin(3, len(reqs))], ", "), ids), Case: cs, Observed: ids})
 	}
@@ -511,7 +512,11 @@ func (sc *c20hScenario) run(t *testing.T, file string, res *verifResult) {
 	}
 	coq, ids = c20hDump(m)
 	sc.segs = append(sc.segs, "[(LRequest, LAnswer "+coq+")]")
-	if !c20hSameIDs(ids, sent) {
+	if !c20hSameIDs(ids, sent) && fileOK {
+		// the file held the recorded events: the loader, not a reader
+		sc.hits = append(sc.hits, verifHit{Key: "C20:restart-differs-from-saved-file", Oracle: "a restart comes back with the events the file holds, in order", Kind: "history",
+			What: fmt.Sprintf("%s: the file held the recorded events %v (newest first); after a restart the recorder comes back with %v", sc.name, sent, ids), Case: cs, Observed: ids})
+	} else if !c20hSameIDs(ids, sent) {
 		sc.hits = append(sc.hits, verifHit{Key: "C20:history-changed-by-reader:restart:" + sc.group, Oracle: c20hOracle, Kind: "history",
 			What: fmt.Sprintf("%s: recorded %v (newest first), then %d reader requests (%s ...), the save, a restart: the recorder comes back with %v", sc.name, sent, len(sc.variants), strings.Join(reqs[:c20hMin(3, len(reqs))], ", "), ids), Case: cs, Observed: ids})
 	}
